@@ -18,6 +18,12 @@ theorem sites_justified :
 theorem lexer_sites :
     Gen.PanicSites.lexerNext.all (fun e => PanicTable.lexerAllowed.contains e.1) = true := by decide
 
+/-- **stores_typed** — every write into a sync.Map / atomic.Value / lru.Cache found in /repo stores
+values of the one type declared for that container: the type assertions on loaded values (the
+`invariant` entries of the table that name a container) cannot fail. -/
+theorem stores_typed :
+    Gen.PanicSites.stores.all (fun s => PanicTable.containerTypes.contains (s.2.1, s.2.2.2)) = true := by decide
+
 /-! ## the guarded operations cannot panic, for any input -/
 
 /-- **identifier_no_panic** — `IdentifierFromString` returns for every byte string (a lone `"`,
